@@ -479,25 +479,40 @@ def const_val(op):
 
 
 class Tracer:
+    """Def-use chase.  With `at` (a block index) only definitions that can reach that block are considered
+    (a definition in block D reaches a use in block U iff D == U or U is CFG-reachable from D); without it the
+    trace is flow-insensitive."""
+
     def __init__(self, prog, fn, max_depth=40):
         self.prog = prog
         self.fn = fn
         self.max_depth = max_depth
+        self._reach = {}
 
-    def operand(self, op, proj=()):
+    def reaches(self, d, u):
+        if d == u:
+            return True
+        r = self._reach.get(d)
+        if r is None:
+            r = self.fn.reachable(self.fn.normal_succs(d))
+            self._reach[d] = r
+        return u in r
+
+    def operand(self, op, proj=(), at=None):
         if op.get("k") == "c":
             return [Origin("const", const_val(op) if const_val(op) is not None else op.get("cdef") or op.get("ty"), proj)]
         if op.get("k") in ("cp", "mv"):
-            return self.place(op["pl"], proj)
+            return self.place(op["pl"], proj, at=at)
         return [Origin("unknown", None)]
 
-    def place(self, pl, extra=(), _depth=0, _seen=None):
+    def place(self, pl, extra=(), _depth=0, _seen=None, at=None):
         proj = norm_proj(pl["p"]) + list(extra)
-        return self._local(pl["l"], proj, _depth, _seen or set())
+        self._at_stack = [at]
+        return self._local(pl["l"], proj, _depth, _seen or set(), at)
 
-    def _local(self, l, proj, depth, seen):
+    def _local(self, l, proj, depth, seen, at=None):
         fn = self.fn
-        key = (l, tuple(proj))
+        key = (l, tuple(proj), at)
         if key in seen or depth > self.max_depth:
             return []
         seen = seen | {key}
@@ -508,6 +523,8 @@ class Tracer:
             outs = []
         defs = fn.defs().get(l, [])
         for (b, kind, payload) in defs:
+            if at is not None and not self.reaches(b, at):
+                continue
             if kind == "call":
                 t = payload
                 dp = norm_proj(t["dest"]["p"])
@@ -518,7 +535,7 @@ class Tracer:
                     rest = proj[len(dp):]
                 else:
                     rest = proj
-                outs.extend(self._call_result(b, t, rest, depth, seen))
+                outs.extend(self._call_result(b, t, rest, depth, seen, at))
             else:
                 s = payload
                 lp = norm_proj(s["lhs"]["p"])
@@ -534,45 +551,47 @@ class Tracer:
                     rest = proj
                 if rest is None:
                     continue
-                outs.extend(self._rvalue(b, s["rhs"], rest, depth, seen))
+                outs.extend(self._rvalue(b, s["rhs"], rest, depth, seen, at))
         if not outs:
             outs = [Origin("local", l, proj)]
         return outs
 
-    def _call_result(self, b, t, rest, depth, seen):
+    def _call_result(self, b, t, rest, depth, seen, at=None):
+        nat = b if at is not None else None
         callee = t.get("callee")
         if callee == TRY_BRANCH and rest[:2] == ["dc:Continue", "f:Continue.0"]:
             # x? : value of the Ok payload of arg0
-            return self._op(t["args"][0], ["?ok"] + rest[2:], depth, seen)
+            return self._op(t["args"][0], ["?ok"] + rest[2:], depth, seen, nat)
         if callee == TRY_BRANCH and rest[:2] == ["dc:Break", "f:Break.0"]:
-            return self._op(t["args"][0], ["?err"] + rest[2:], depth, seen)
+            return self._op(t["args"][0], ["?err"] + rest[2:], depth, seen, nat)
         if callee in ("core::convert::From::from", "core::convert::Into::into") and t["args"]:
             # identity conversions are kept as calls (the rule decides); expose arg origin as well
             pass
         if callee in ("core::clone::Clone::clone", "core::ops::deref::Deref::deref",
                       "core::ops::deref::DerefMut::deref_mut", "core::borrow::Borrow::borrow",
                       "core::convert::AsRef::as_ref") and t["args"]:
-            return self._op(t["args"][0], rest, depth, seen)
+            return self._op(t["args"][0], rest, depth, seen, nat)
         return [Origin("call", t, rest, b)]
 
-    def _op(self, op, rest, depth, seen):
+    def _op(self, op, rest, depth, seen, at=None):
         if op.get("k") == "c":
             cv = const_val(op)
             return [Origin("const", cv if cv is not None else (op.get("cdef") or op.get("ty")), rest)]
         if op.get("k") in ("cp", "mv"):
             p = norm_proj(op["pl"]["p"]) + list(rest)
-            return self._local(op["pl"]["l"], p, depth + 1, seen)
+            return self._local(op["pl"]["l"], p, depth + 1, seen, at)
         return [Origin("unknown", None)]
 
-    def _rvalue(self, b, rv, rest, depth, seen):
+    def _rvalue(self, b, rv, rest, depth, seen, at=None):
         k = rv["rv"]
+        nat = b if at is not None else None
         if k == "use":
-            return self._op(rv["a"], rest, depth, seen)
+            return self._op(rv["a"], rest, depth, seen, nat)
         if k == "ref" or k == "rawptr":
             p = norm_proj(rv["pl"]["p"]) + list(rest)
-            return self._local(rv["pl"]["l"], p, depth + 1, seen)
+            return self._local(rv["pl"]["l"], p, depth + 1, seen, nat)
         if k == "cast":
-            o = self._op(rv["a"], rest, depth, seen)
+            o = self._op(rv["a"], rest, depth, seen, nat)
             return o
         if k == "agg":
             agg = rv.get("agg")
@@ -590,10 +609,10 @@ class Tracer:
                     elif nm.isdigit():
                         idx = int(nm)
                 if idx is not None and idx < len(rv["ops"]):
-                    return self._op(rv["ops"][idx], rest[1:], depth, seen)
+                    return self._op(rv["ops"][idx], rest[1:], depth, seen, nat)
             if rest and rest[0].startswith("dc:") and agg == "adt":
                 if rest[0][3:] == rv.get("variant"):
-                    return self._rvalue(b, rv, rest[1:], depth, seen)
+                    return self._rvalue(b, rv, rest[1:], depth, seen, at)
                 return []
             return [Origin("agg", rv, rest, b)]
         if k == "bin":
